@@ -22,7 +22,7 @@
     deep-compares host and pattern before/after every call (TESTED_NOT_PROVED). *)
 From Coq Require Import List NArith Bool Arith Permutation SetoidList Relations.
 From SK Require Import lib.LGraph lib.Mono model.C06_Model lib.C06_Spec
-  proof.C06_All proof.C06_Comp proof.C06_Comps proof.C06_CompSem proof.C06_Main.
+  proof.C06_All proof.C06_Comp proof.C06_Comps proof.C06_CompSem proof.C06_CompNoDup proof.C06_Main.
 Import ListNotations.
 
 (** ** 0. What the specification predicates say, written out *)
@@ -96,6 +96,8 @@ Theorem C06_comp_spec : forall (enum : list N -> list N -> list mapping) (strict
   let R := find enum (Cfg 1 0 T strict false) H P in
   let hcc := length (comps H) in
   let pcc := length (comps P) in
+  (* no two entries are equal as sets of pairs *)
+  NoDupA (@Permutation (N * N)) R /\
   if (0 <? pcc) && (pcc <? hcc) && strict then R = []
   else if hcc <? pcc then
     (forall m, In m R -> is_mono H P m) /\
